@@ -1445,6 +1445,8 @@ class PyExec:
         elif name == 'bool':
             t = self.truth(pos[0])
             yield st, (t if isinstance(t, bool) else SV(t, 'bool'))
+        elif name in ('any', 'all') and isinstance(pos[0], (list, tuple)) and not any(is_sym(x) or isinstance(x, (PObj, list, dict)) for x in pos[0]):
+            yield st, (any(pos[0]) if name == 'any' else all(pos[0]))
         else:
             h = self.reg.builtin_models.get(name)
             if h is None:
